@@ -281,29 +281,39 @@ func (lm *levelManager) flushToL0(kvs []types.Entry) error {
 	lm.levels[0].PushBack(th)
 
 	// file name format: level-idx.db
-	fd, err := os.OpenFile(lm.fileName(0, th.levelIdx), os.O_CREATE|os.O_RDWR|os.O_TRUNC, 0600)
+	return lm.writeTable(0, th.levelIdx, tableBytes)
+}
+
+// writeTable persists an sstable atomically: the bytes are written to a temporary file
+// (ignored by recover), synced, and only then the file gets its final name, so a crash
+// never leaves an empty or half written level-idx.db behind.
+func (lm *levelManager) writeTable(level, idx int, tableBytes []byte) error {
+	name := lm.fileName(level, idx)
+	tmp := name + ".tmp"
+
+	fd, err := os.OpenFile(tmp, os.O_CREATE|os.O_RDWR|os.O_TRUNC, 0600)
 	if err != nil {
 		return err
 	}
-	defer func() {
-		if err = fd.Close(); err != nil {
-			lm.logger.Errorf("failed to close file: %v", err)
-		}
-	}()
 
 	// write sstable
-	_, err = fd.Write(tableBytes)
-	if err != nil {
+	if _, err = fd.Write(tableBytes); err != nil {
+		_ = fd.Close()
 		return err
 	}
 
 	// os sync
 	if err = fd.Sync(); err != nil {
 		lm.logger.Errorf("failed to sync file: %v", err)
+		_ = fd.Close()
 		return err
 	}
 
-	return nil
+	if err = fd.Close(); err != nil {
+		return err
+	}
+
+	return os.Rename(tmp, name)
 }
 
 func (lm *levelManager) checkAndCompact() {
@@ -417,6 +427,11 @@ func (lm *levelManager) compactL0() {
 		dataBlockIndex: dataBlockIndex,
 	}
 
+	// write new sstable before the old ones are dropped: a crash in between must not lose them
+	if err := lm.writeTable(1, th.levelIdx, tableBytes); err != nil {
+		lm.logger.Panicf("failed to write sstable: %v", err)
+	}
+
 	// update index
 	// add new index to L1
 	lm.levels[1].PushBack(th)
@@ -441,22 +456,6 @@ func (lm *levelManager) compactL0() {
 		if err := os.Remove(lm.fileName(1, e.Value.(tableHandle).levelIdx)); err != nil {
 			lm.logger.Panicf("failed to delete old sstable: %v", err)
 		}
-	}
-
-	// write new sstable
-	fd, err := os.OpenFile(lm.fileName(1, th.levelIdx), os.O_CREATE|os.O_RDWR|os.O_TRUNC, 0600)
-	if err != nil {
-		lm.logger.Panicf("failed to open sstable: %v", err)
-	}
-	defer func() {
-		if err = fd.Close(); err != nil {
-			lm.logger.Errorf("failed to close file: %v", err)
-		}
-	}()
-
-	_, err = fd.Write(tableBytes)
-	if err != nil {
-		lm.logger.Panicf("failed to write sstable: %v", err)
 	}
 }
 
@@ -504,6 +503,11 @@ func (lm *levelManager) compactLN(n int) {
 		dataBlockIndex: dataBlockIndex,
 	}
 
+	// write new sstable before the old ones are dropped: a crash in between must not lose them
+	if err := lm.writeTable(n+1, th.levelIdx, tableBytes); err != nil {
+		lm.logger.Panicf("failed to write sstable: %v", err)
+	}
+
 	// update index
 	// add new index to LN+1
 	lm.levels[n+1].PushBack(th)
@@ -524,22 +528,6 @@ func (lm *levelManager) compactLN(n int) {
 		if err := os.Remove(lm.fileName(n+1, e.Value.(tableHandle).levelIdx)); err != nil {
 			lm.logger.Panicf("failed to delete old sstable: %v", err)
 		}
-	}
-
-	// write new sstable
-	fd, err := os.OpenFile(lm.fileName(n+1, th.levelIdx), os.O_CREATE|os.O_RDWR|os.O_TRUNC, 0600)
-	if err != nil {
-		lm.logger.Panicf("failed to open sstable: %v", err)
-	}
-	defer func() {
-		if err = fd.Close(); err != nil {
-			lm.logger.Errorf("failed to close file: %v", err)
-		}
-	}()
-
-	_, err = fd.Write(tableBytes)
-	if err != nil {
-		lm.logger.Panicf("failed to write sstable: %v", err)
 	}
 }
 
